@@ -99,7 +99,7 @@ def extra(rng, tier):
                 flat = gen.vals_q(rng, n * L)
                 q = rng.choice(gen.queries_q(rng, xs, 8, ext=ext))
             else:
-                xs = gen.axis_f(rng, n, rng.choice(["uniform", "geometric", "random"]))
+                xs = gen.axis_f(rng, n, rng.choice(["uniform", "geometric", "random", "evenish"]))
                 flat = [rng.uniform(-9, 9) for _ in range(n * L)]
                 span = xs[-1] - xs[0]
                 q = rng.choice([rng.uniform(xs[0], xs[-1]), xs[rng.randrange(n)]] + ([xs[0] - span * 0.3, xs[-1] + span * 2] if ext else []))
